@@ -153,6 +153,16 @@ func (c11) Run(c *Ctx, i int) CaseResult {
 			return res
 		}
 	}
+	if i%4 == 2 {
+		// concurrent requests sharing cached plans on a gateway in its default configuration: the plan's queryers are
+		// the client library's network queryers (over an in-process transport); no request middlewares (KF-D37)
+		tc := NetTwinCase{Query: c05Queries[r.Intn(len(c05Queries))], StoreSeed: 5, ListLen: []int{0, 3, 12}[r.Intn(3)], Cached: true, Repeat: 2 + r.Intn(6)}
+		if nf := RunNetTwin(tc); len(nf) > 0 {
+			res.Nontrivial = true
+			res.Fails = nf
+			return res
+		}
+	}
 	rc0 := &gateway.RequestContext{Context: context.Background(), Query: q, OperationName: "Q", CacheKey: ""}
 	plans, perr := f.GW.GetPlans(rc0)
 	if perr != nil {
